@@ -306,6 +306,13 @@ def build(spec):
             c.__dict__.setdefault("declared_lmis", {}).update(lmi_buf1=first, lmi_buf2=second)
             p.set_performance_metric(e1_ + 0.25)
             p.add_constraint(e2_ <= 1)
+        elif ex == "many_points":
+            # more than 64 leaf points (each bounded, each tied to x0 by a cross inner product)
+            from PEPit import Point as _Pt
+            for k_ in range(66):
+                z_ = _Pt()
+                c.points["many_%d" % k_] = z_
+                p.add_constraint((z_ - x0) ** 2 <= 1 + 0.01 * k_)
         elif ex == "lmi_cross":
             # a redundant Cauchy-Schwarz LMI whose off-diagonal entry is made of inner products of DIFFERENT leaf points
             a = x0 if ref is None else x0 - ref
@@ -373,6 +380,12 @@ def build(spec):
             c.points["g3"] = f3.gradient(x0)
             c.points["ATx"] = A.T.gradient(x0)
             c.points["Bx"] = B.gradient(x0)
+            A2 = p.declare_function(LinearOperator, L=3.0)          # sampled once, its transpose never
+            c.funcs["A2"] = A2
+            c.points["A2x"] = A2.gradient(x0)
+            con_T = (c.points["ATx"] ** 2 <= 3.5)                     # a constraint declared on the TRANSPOSE object
+            A.T.add_constraint(con_T)
+            c.constraints["on_transpose"] = con_T
         elif ex == "second_function":
             f2 = p.declare_function(SmoothStronglyConvexFunction, mu=0.1, L=1.0)
             c.funcs["f2"] = f2
@@ -459,6 +472,7 @@ def enumerate_specs(tier, family="core"):
             specs.append(dict(base, named=True, fname="func", extras=["named_ineq"]))
     for cls in ("SmoothStronglyConvexFunction", "ConvexFunction", "LipschitzOperator", "SmoothConvexFunction"):
         specs.append(dict(cls=cls, par=0, pattern="sf", metric=CLASSES[cls]["metrics"][0], init="dist1e6", n=1))
+    specs.append(dict(cls="SmoothStronglyConvexFunction", par=0, pattern="sf", metric="dist", init="dist", n=1, extras=["many_points"]))
     # multipliers spanning more than six orders of magnitude: rate 0.25^10 ~ 1e-6 on the initial condition ||x0 - x*||^2 <= 100
     specs.append(dict(cls="SmoothStronglyConvexFunction", par=3, pattern="sf", metric="dist", init="dist100", n=5))
     for par in range(1 if quick else 2):
